@@ -80,7 +80,8 @@ def gen_broker_case(rng, stream='valid', n_ops=None, exact=False, fee=None, npf=
                 price[a] = max(0.5, price[a] + rng.randint(-16, 16) / 8)
                 spread = rng.choice([0.125, 0.25, 0.5])
             else:
-                price[a] = max(0.5, price[a] * (1 + rng.uniform(-0.03, 0.03)))
+                price[a] = (price[a] * (1 + rng.choice([1, -1, 2]) * rng.choice([1e-6, 4e-6, 9e-6])) if rng.random() < 0.15
+                            else max(0.5, price[a] * (1 + rng.uniform(-0.03, 0.03))))
                 spread = rng.choice([0.01, 0.05, price[a] * 0.001])
             quotes.append([tt, a, price[a], price[a] + spread])
 
@@ -194,7 +195,9 @@ def gen_broker_case(rng, stream='valid', n_ops=None, exact=False, fee=None, npf=
     return {'kind': 'broker', 'stream': stream + (':exact' if exact else ''),
             'cfg': {'start': start, 'base': rng.choice(['USD', 'USD', 'GBP', 'EUR']), 'funds': funds, 'fee': fee, 'pre': 1,
                     # the exchange object has its own start argument (the documented hours do not depend on it)
-                    'exch_start': (start + rng.choice([86400, 10 * 86400, 400 * 86400, -86400, 3600]) if rng.random() < 0.3 else None)},
+                    'exch_start': (start + rng.choice([86400, 10 * 86400, 400 * 86400, -86400, 3600]) if rng.random() < 0.3 else None),
+                    # every order of the case carries the same caller-supplied order id
+                    'dup_ids': rng.random() < 0.15},
             'quotes': quotes, 'ops': ops, 'exact': exact, 'assets': assets}
 
 
@@ -380,11 +383,13 @@ def compare_broker(case, impl, mod, fields, j):
             else:
                 for a, b in zip(mf, ifl):
                     # [pid, asset, qty, dt, price, comm, oid]
-                    if a[0] != b[0] or a[1] != b[1] or a[3] != b[3] or a[6] != b[6] or not close(a[2], b[2], tol) \
+                    if a[0] != b[0] or a[1] != b[1] or a[3] != b[3] or (b[6] != -1 and a[6] != b[6]) or not close(a[2], b[2], tol) \
                             or not close(a[4], b[4], tol) or not close(a[5], b[5], tol):
                         out.append('%s: fill model=%s impl=%s' % (w, [a[0], a[1], float(a[2]), a[3], float(a[4]), float(a[5]), a[6]], b))
         for (pid, mpf, mq), (_, ipf, iq), pub in zip(msnap[2], isnap[2], st['pub']):
             ww = '%s pf %s' % (w, pid)
+            if 'queues' in fields and any(e[0] == -1 for e in iq):
+                mq = [[-1] + list(e[1:]) for e in mq]
             if 'queues' in fields and mq != iq:
                 out.append('%s: queue model=%s impl=%s' % (ww, mq, iq))
             amts = [mpf[1]]
@@ -445,6 +450,8 @@ def gen_portfolio_case(rng, stream='valid', n_ops=None, exact=False, real_qty=Fa
         a = rng.choice(assets)
         if exact:
             price[a] = max(0.5, price[a] + rng.randint(-16, 16) / 8)
+        elif rng.random() < 0.15:
+            price[a] = price[a] * (1 + rng.choice([1, -1, 2, 3]) * rng.choice([1e-6, 4e-6, 1e-7, 9e-6]))     # a slowly drifting quote
         else:
             price[a] = max(0.5, price[a] * (1 + rng.uniform(-0.05, 0.05)))
         if rng.random() < bad_rate:
@@ -497,6 +504,8 @@ def gen_portfolio_case(rng, stream='valid', n_ops=None, exact=False, real_qty=Fa
                 comm = rng.choice([0.0, dy(rng, 0, 50, 8)])
             else:
                 comm = rng.choice([0.0, round(rng.uniform(0, 50), 2), rng.uniform(0, 50)])
+            if rng.random() < 0.12:
+                comm = -comm          # a rebate
             ops.append(['txn', a, q, t2, price[a], comm])
             known_cash = False
             t = t2
